@@ -16,7 +16,7 @@ import os
 import vcommon as V
 import tables_util as T
 
-MODEL_KINDS = {"opl-model", "opl-interp-model", "coerce-model", "coerce-interp-model", "inferred-model", "inferred-interp", "op-interp-model", "var-model", "func-model", "stmt-model", "op-model", "var-wide-model", "func-wide-model", "stmt-wide-model"}
+MODEL_KINDS = {"opv-lint", "opv-interp", "var-interp-regen", "opl-model", "opl-interp-model", "coerce-model", "coerce-interp-model", "inferred-model", "inferred-interp", "op-interp-model", "var-model", "func-model", "stmt-model", "op-model", "var-wide-model", "func-wide-model", "stmt-wide-model"}
 
 
 def run(ctx):
@@ -100,9 +100,10 @@ def run(ctx):
     accepted = 0
     classes["coerce"] = collections.Counter()
     classes["opsleft"] = collections.Counter()
+    classes["variants"] = collections.Counter()
     classes["inferred"] = collections.Counter()
     for name, table in (("vars", obs.vars), ("funcs", obs.funcs), ("stmts", obs.stmts), ("ops", obs.ops),
-                        ("opsleft", obs.opsleft), ("coerce", obs.coerce), ("inferred", obs.inferred + obs.inferred3)):
+                        ("variants", obs.variants), ("opsleft", obs.opsleft), ("coerce", obs.coerce), ("inferred", obs.inferred + obs.inferred3)):
         for r in table:
             for l, i in zip(r["lint"], r["interp"]):
                 if i is None:
@@ -117,6 +118,7 @@ def run(ctx):
         "statement cells (kind x 45 masks)": sum(1 for r in obs.stmts for x in r["interp"] if x is not None),
         "operator cells (23 ops x 10 types x existing value type / 14 forms)": sum(1 for r in obs.ops for x in r["interp"] if x is not None),
         "operator cells with a provenance of the left operand (23 ops x types x 6 provenances x lit/local value)": sum(1 for r in obs.opsleft for x in r["interp"] if x is not None),
+        "operator cells with other literal spellings / header sub-field (23 ops x 10 types x 10 variants)": sum(1 for r in obs.variants for x in r["interp"] if x is not None),
         "coercion cells (3 contexts x 9 expected types x existing value type/form)": sum(1 for r in obs.coerce for x in r["interp"] if x is not None),
         "inferred-scope cells (use x depth 1..3 x 36 pairs of lifecycle subs)": sum(1 for r in obs.inferred for x in r["interp"] if x is not None),
         "inferred-scope cells (use x 84 triples, thorough)": sum(1 for r in obs.inferred3 for x in r["interp"] if x is not None),
